@@ -29,6 +29,7 @@ import (
 	"os"
 	"path/filepath"
 	"regexp"
+	"runtime"
 	"strings"
 	"sync"
 	"sync/atomic"
@@ -59,10 +60,11 @@ type local struct {
 	hist     map[string]map[string]int64
 	distinct map[string]struct{}
 	sampled  map[string]bool
+	leafFed  map[string]struct{} // member values this worker already fed to the member-level decoders
 }
 
 func newLocal() *local {
-	return &local{hist: map[string]map[string]int64{}, distinct: map[string]struct{}{}, sampled: map[string]bool{}}
+	return &local{hist: map[string]map[string]int64{}, distinct: map[string]struct{}{}, sampled: map[string]bool{}, leafFed: map[string]struct{}{}}
 }
 
 func (l *local) count(h, b string) { l.countN(h, b, 1) }
@@ -210,8 +212,8 @@ func (f *front) specFor(phase int, i int, r *rand.Rand) docSpec {
 		}
 		return randomSpec(r, rawFamilies, 64, 16384)
 	default:
-		if i/2 < len(f.corpus2) {
-			return f.corpus2[i/2]
+		if i < len(f.corpus2) {
+			return f.corpus2[i]
 		}
 		return randomSpec(r, f.fams2, 64, 16384)
 	}
@@ -228,7 +230,7 @@ func (f *front) rawCase(worker, i int) {
 
 // feedAllRaw feeds a document to the raw decoders.
 //
-// A claim-set document goes to the decoders of its own family, to three more decoders in rotation (a userinfo
+// A claim-set document goes to the decoders of its own family, to two more decoders in rotation (a userinfo
 // document is a legal input of the ID-token decoder) and - member by member - the hostile values of its mutations go to
 // the member-level types (Audience, Time, Locale(s), SpaceDelimitedArray, Bool, Display, ActorClaims, ...), which a whole
 // claim set would only ever send down the same "not a string" branch. A document whose top level is not an object built
@@ -271,8 +273,8 @@ func (f *front) feedAllRaw(l *local, caseIdx int64, i int, spec *docSpec, doc []
 		for _, n := range affine[spec.fam.name] {
 			chosen[rawByName[n]] = true
 		}
-		for k := 0; k < 3; k++ {
-			chosen[(i*3+k)%len(rawTargets)] = true
+		for k := 0; k < 2; k++ {
+			chosen[(i*2+k)%len(rawTargets)] = true
 		}
 		for idx, t := range rawTargets {
 			if chosen[idx] {
@@ -282,6 +284,13 @@ func (f *front) feedAllRaw(l *local, caseIdx int64, i int, spec *docSpec, doc []
 		for _, m := range spec.muts {
 			if m.op == "del" {
 				continue
+			}
+			if len(m.v.raw) <= 128 {
+				// the same short value (the sweep repeats each of them under every member name) is decoded once per worker
+				if _, seen := l.leafFed[m.v.raw]; seen {
+					continue
+				}
+				l.leafFed[m.v.raw] = struct{}{}
 			}
 			val := []byte(rc.expand(m.v.raw))
 			for _, t := range rawTargets {
@@ -309,8 +318,8 @@ func (f *front) feedAllRaw(l *local, caseIdx int64, i int, spec *docSpec, doc []
 		l.count("docs.value_class", m.v.class)
 		l.count("docs.mutation_op", m.op)
 	}
-	l.distinct["docs|raw|"+spec.fam.name+"|"+spec.topClass()+"|"+spec.firstMut()+"|"+od] = struct{}{}
-	if !l.sampled["raw."+od] {
+	l.distinct["docs|raw|"+spec.fam.name+"|"+spec.topClass()+"|"+spec.firstValueClass()+"|"+od] = struct{}{}
+	if od == "mixed" && len(spec.muts) > 1 && !l.sampled["raw."+od] {
 		l.sampled["raw."+od] = true
 		f.run.SampleKind("docs.raw."+od, map[string]any{"spec": spec.describe(), "document": docLit(clipDoc(doc)), "decoders_ok": totalOK, "decoders_error": totalErr, "panics": panics})
 	}
@@ -402,11 +411,10 @@ func (f *front) feedTokens(l *local, w *world, caseIdx int64, i int, spec *docSp
 		}
 		return ts.op, "signed-by-provider-key"
 	}
-	dim := spec.fam.name + "|" + spec.topClass() + "|" + spec.firstValueClass()
+	dim := spec.topClass() + "|" + spec.firstValueClass()
 	// Fan-out. A document whose top level is not a family object (null, arrays, broken JSON: few) goes everywhere. A
-	// claim-set document goes to half of the verifiers and a third of the HTTP points that trust its signer, in rotation
-	// (the systematic sweep visits every document twice - index i/2 - so that it sees both halves and both routers),
-	// and to a quarter of the others (whatever runs before the signature check runs for them too).
+	// mutated claim-set document goes to half of the verifiers and a third of the HTTP points that trust its signer, in
+	// rotation by case index, and to a quarter of the others (whatever runs before the signature check runs for them too).
 	everywhere := spec.top.class != "object" || pureBase || onlyV != nil || onlyP != nil
 	// direct verifiers
 	for ti, t := range vtargets {
@@ -443,7 +451,7 @@ func (f *front) feedTokens(l *local, w *world, caseIdx int64, i int, spec *docSp
 		}
 		if k := "verify." + ec; !l.sampled[k] && len(l.sampled) < 40 {
 			l.sampled[k] = true
-			if ec == "ok" || ec == "json: cannot unmarshal" || ec == "ErrExpired" {
+			if ec == "json: cannot unmarshal" && signedHow != "unsigned" {
 				f.run.SampleKind("docs.verify."+ec, map[string]any{"target": t.name, "spec": spec.describe(), "document": docLit(clipDoc(doc)), "token_is": ts.how + ", " + signedHow, "error": fmt.Sprint(res.err)})
 			}
 		}
@@ -457,7 +465,7 @@ func (f *front) feedTokens(l *local, w *world, caseIdx int64, i int, spec *docSp
 			if nat != "both" && nat != p.key && r.IntN(4) != 0 {
 				continue
 			}
-			if (i/2+pi)%3 != 0 {
+			if (i+pi)%3 != 0 {
 				continue
 			}
 		}
@@ -509,7 +517,7 @@ func (f *front) httpCall(l *local, w *world, caseIdx int64, router int, p point,
 	}
 	if k := "http." + p.name + "." + v.outcome; !l.sampled[k] && len(l.sampled) < 60 {
 		l.sampled[k] = true
-		if p.name == "userinfo.bearer" || p.name == "token.jwt-bearer" || p.name == "te.subject.id_token" || p.name == "end_session.get" {
+		if (p.name == "userinfo.bearer" && v.outcome == "200") || (p.name == "te.subject.id_token" && strings.HasPrefix(v.outcome, "400")) {
 			f.run.SampleKind("docs.http."+p.name+"."+v.outcome, map[string]any{"router": rn, "request": lit.clipped(), "response": resp.Brief(), "token_is": witness["token_is"], "spec": witness["spec"]})
 		}
 	}
@@ -688,7 +696,7 @@ func riskyList(thorough bool) []riskySpec {
 		if cur > 0 {
 			d = cur + 1
 		}
-		out = append(out, riskySpec{spec: docSpec{fam: f, top: objectTop, base: true, muts: []mut{{"set", name, v}}}, subset: subset, note: name + "=" + v.class, depth: d})
+		out = append(out, riskySpec{spec: docSpec{fam: f, top: objectTop, base: true, muts: []mut{{"set", name, v}}}, subset: subset, note: clip(name, 24) + "=" + v.class, depth: d})
 	}
 	top := func(v hval) {
 		v.class = "top:" + v.class
@@ -704,30 +712,33 @@ func riskyList(thorough bool) []riskySpec {
 		top(deepObject(d))
 		add(famIDToken, "aud", deepArray(d), false)
 		add(famIDToken, "act", deepObject(d), false)
-		add(famIDToken, "act", deepArray(d), false)
-		add(famIDToken, "address", deepObject(d), false)
 		add(famIDToken, "x", deepArray(d), false)
 		add(famIDToken, "exp", deepArray(d), false)
-		add(famIDToken, "locale", deepObject(d), false)
+		if thorough || d > 10000 { // documents beyond the limit are rejected by the first scan: cheap
+			add(famIDToken, "act", deepArray(d), false)
+			add(famIDToken, "address", deepObject(d), false)
+			add(famIDToken, "locale", deepObject(d), false)
+			add(famAccessToken, "scope", deepArray(d), false)
+			add(famAssertion, "aud", deepArray(d), false)
+			add(famRequestObject, "ui_locales", deepArray(d), false)
+			add(famJOSEHeader, "jwk", deepObject(d), false)
+		}
+		add(famJOSEHeader, "crit", deepArray(d), false)
 		if thorough {
 			for _, n := range []string{"aud", "address", "x", "amr", "exp", "locale", "email_verified"} {
 				add(famIDToken, n, deepObject(d), false)
 				add(famIDToken, n, deepArray(d), false)
 			}
 		}
-		add(famAccessToken, "scope", deepArray(d), false)
-		add(famAssertion, "aud", deepArray(d), false)
-		add(famRequestObject, "ui_locales", deepArray(d), false)
-		add(famJOSEHeader, "jwk", deepObject(d), false)
-		add(famJOSEHeader, "crit", deepArray(d), false)
 		// actor chains deeper than the decoder's limit are rejected by the first scan: cheap
 		if d > 9999 {
 			add(famIDToken, "act", actChain(d), false)
 			add(famAccessToken, "act", actChain(d), false)
 		}
 	}
-	// actor chains below the limit: the library decodes them in quadratic time (each level re-decodes its subtree
-	// twice: depth 800 takes 0.3 s, depth 9 990 about a minute per decode), so the long ones go to a handful of targets
+	// actor chains below the limit: the library decodes them in quadratic time AND space (every level re-decodes its
+	// whole subtree twice and keeps it in its Claims map: depth 800 takes 0.3 s, depth 10 000 about a minute and ~35 GB
+	// for a 180 kB document), so the long ones go to a handful of targets and nothing beyond 1 500 levels is decoded
 	cur = 100
 	add(famIDToken, "act", actChain(100), false)
 	add(famAccessToken, "act", actChain(100), false)
@@ -740,12 +751,9 @@ func riskyList(thorough bool) []riskySpec {
 		cur = 1000
 		add(famIDToken, "act", actChain(1000), true)
 		add(famAccessToken, "act", actChain(1000), true)
-		cur = 3000
-		add(famIDToken, "act", actChain(3000), true)
+		cur = 1500
+		add(famIDToken, "act", actChain(1500), true)
 		out[len(out)-1].minimal = 1
-		cur = 9998
-		add(famIDToken, "act", actChain(9998), true)
-		out[len(out)-1].minimal = 2
 	}
 	cur = 0
 	sizes := []int{1 << 16, 1 << 20}
@@ -758,7 +766,9 @@ func riskyList(thorough bool) []riskySpec {
 		add(famIDToken, "sub", longString(n), false)
 		add(famIDToken, "aud", longArray(n/4), false)
 		add(famIDToken, "x", hval{"obj.many-keys." + sizeBucket(n), manyKeys(n / 12)}, false)
-		add(famIDToken, "exp", hval{"num.digits." + sizeBucket(n), strings.Repeat("9", n)}, false)
+		if full {
+			add(famIDToken, "exp", hval{"num.digits." + sizeBucket(n), strings.Repeat("9", n)}, false)
+		}
 		add(famIDToken, strings.Repeat("k", n), hv("num.0", "0"), false)
 		add(famRequestObject, "scope", hval{"str.many-scopes." + sizeBucket(n), `"` + strings.Repeat("a ", n/2) + `"`}, false)
 		if full {
@@ -775,12 +785,38 @@ func riskyList(thorough bool) []riskySpec {
 	return out
 }
 
-var riskyRawSubset = map[string]bool{"oidc.ActorClaims": true, "oidc.IDTokenClaims": true}
-var riskyVSubset = map[string]bool{"op.VerifyIDTokenHint[*IDTokenClaims]": true, "op.VerifyAccessToken[*AccessTokenClaims]": true}
-var riskyPSubset = map[string]bool{"end_session.get": true, "userinfo.bearer": true, "te.actor.id_token": true}
-var riskyPoints = map[string]bool{"userinfo.bearer": true, "userinfo.form": true, "introspect.token": true, "revoke.token": true, "end_session.get": true, "authorize.hint": true,
-	"te.subject.access_token": true, "te.subject.id_token": true, "te.actor.id_token": true, "te.actor.jwt": true, "token.jwt-bearer": true, "authorize.request": true,
-	"introspect.client_assertion": true, "token.code.client_assertion": true}
+// Target selection of the risky phase. Deep / huge documents only matter where library code itself recurses or
+// copies (the nested-actor decoder, the custom unmarshalers that decode into `any`, claims maps); everywhere else they
+// only traverse encoding/json, which bounds its own recursion.
+var (
+	riskyRawAlways = map[string]bool{"oidc.ActorClaims": true, "oidc.Audience": true, "oidc.Locales": true, "oidc.Locale": true, "oidc.Time": true,
+		"oidc.SpaceDelimitedArray": true, "oidc.Bool": true, "oidc.UserInfo": true, "oidc.DeviceAuthorizationResponse": true}
+	riskyRawSubset = map[string]bool{"oidc.ActorClaims": true, "oidc.IDTokenClaims": true}
+	riskyVSubset   = map[string]bool{"op.VerifyIDTokenHint[*IDTokenClaims]": true, "op.VerifyAccessToken[*AccessTokenClaims]": true}
+	riskyPSubset   = map[string]bool{"end_session.get": true, "userinfo.bearer": true, "te.actor.id_token": true}
+	riskyPoints    = map[string]bool{"userinfo.bearer": true, "introspect.token": true, "end_session.get": true, "authorize.hint": true,
+		"te.subject.access_token": true, "te.actor.id_token": true, "token.jwt-bearer": true, "authorize.request": true}
+	riskyPointsHuge = map[string]bool{"userinfo.bearer": true, "end_session.get": true, "token.jwt-bearer": true, "authorize.request": true}
+	riskyVHuge      = map[string]bool{"rp.VerifyIDToken[*IDTokenClaims]": true, "op.VerifyAccessToken[*AccessTokenClaims]": true, "op.VerifyIDTokenHint[*TokenClaims]": true,
+		"op.VerifyJWTAssertion(storage)": true, "op.ParseRequestObject": true}
+)
+
+// actorChainCost measures one decode of a standalone actor chain (informational: the quadratic law is reported in the
+// evidence, it is not part of the verdict).
+func (f *front) actorChainCost(depth int) string {
+	doc := []byte(actChain(depth).raw)
+	var m0, m1 runtime.MemStats
+	runtime.ReadMemStats(&m0)
+	t0 := time.Now()
+	var a oidc.ActorClaims
+	var err error
+	if pi := mon.Catch(func() { err = json.Unmarshal(doc, &a) }); pi != nil {
+		return "panic: " + pi.Value
+	}
+	d := time.Since(t0)
+	runtime.ReadMemStats(&m1)
+	return fmt.Sprintf("document %d bytes: %.3fs, %d MB allocated, error=%v", len(doc), d.Seconds(), (m1.TotalAlloc-m0.TotalAlloc)>>20, err != nil)
+}
 
 func inflightPaths() []string {
 	dir := filepath.Join(ev.Out, "replay")
@@ -812,8 +848,21 @@ func (f *front) riskyCase(i int, rs riskySpec) {
 	go func() {
 		defer close(done)
 		var onlyRaw, onlyV, onlyP func(string) bool
-		onlyP = func(n string) bool { return riskyPoints[n] }
-		onlyV = func(n string) bool { return !strings.HasPrefix(n, "oidc.ParseToken") || strings.Contains(n, "[*TokenClaims]") }
+		// The decoders get the whole document, never a member value on its own: an actor chain of exactly 10 000 levels
+		// passes the decoder's depth check and costs the library about a minute and tens of gigabytes (see actorChainCost).
+		fam := map[string]bool{}
+		for _, n := range affine[rs.spec.fam.name] {
+			fam[n] = true
+		}
+		huge := len(doc) > 512<<10
+		onlyRaw = func(n string) bool { return fam[n] || (riskyRawAlways[n] && !huge) }
+		onlyP = func(n string) bool { return (!huge && riskyPoints[n]) || riskyPointsHuge[n] }
+		onlyV = func(n string) bool {
+			if huge {
+				return riskyVHuge[n]
+			}
+			return !strings.HasPrefix(n, "oidc.ParseToken") || strings.Contains(n, "[*TokenClaims]")
+		}
 		if rs.subset {
 			onlyRaw = func(n string) bool { return riskyRawSubset[n] }
 			onlyV = func(n string) bool { return riskyVSubset[n] }
@@ -833,12 +882,21 @@ func (f *front) riskyCase(i int, rs riskySpec) {
 			onlyP = func(n string) bool { return rs.minimal == 1 && n == "end_session.get" }
 		}
 		if pi := mon.Catch(func() {
-			ok, errs, _ := f.feedAllRaw(l, caseIdx, i, &spec, doc, rc, onlyRaw)
-			if rs.depth > 10000 && ok == 0 && errs > 0 {
-				f.run.Observed("docs:beyond-depth-limit-rejected")
-			}
-			if rs.depth >= 9999 && rs.depth <= 10000 && ok > 0 {
-				f.run.Observed("docs:depth-10000-decoded")
+			f.feedAllRaw(l, caseIdx, i, &spec, doc, rc, onlyRaw)
+			if rs.depth >= 9999 && rs.minimal == 0 {
+				// probe with a decoder that accepts any member types: does the depth limit of encoding/json decide?
+				var ui oidc.UserInfo
+				err := json.Unmarshal(doc, &ui)
+				switch {
+				case rs.depth > 10000 && err != nil && strings.Contains(err.Error(), "exceeded max depth"):
+					f.run.Observed("docs:beyond-depth-limit-rejected")
+					l.count("docs.risky.depth-limit", "deeper than 10000: rejected (exceeded max depth)")
+				case rs.depth <= 10000 && err == nil:
+					f.run.Observed("docs:depth-10000-decoded")
+					l.count("docs.risky.depth-limit", fmt.Sprintf("depth %d: decoded", rs.depth))
+				default:
+					l.count("docs.risky.depth-limit", fmt.Sprintf("depth %d: error=%v", rs.depth, err != nil))
+				}
 			}
 			r := f.run.CaseRand(200+phaseRisky, i)
 			// both routers: the case index parity selects the router of each point, so feed twice
@@ -851,6 +909,7 @@ func (f *front) riskyCase(i int, rs riskySpec) {
 	select {
 	case <-done:
 		d := time.Since(t0)
+		l.countN("docs.risky.milliseconds_informational", rs.note, d.Milliseconds())
 		switch {
 		case d > 20*time.Second:
 			l.count("docs.risky.duration", "gt20s")
@@ -887,7 +946,18 @@ func Run(run *ev.Run) {
 	f.fams2 = append(append([]*family{}, tokenFamilies...), tokenFamilies...)
 	f.fams2 = append(f.fams2, famJOSEHeader) // 1/9 of the random token documents are hostile protected headers
 	f.corpus1 = corpus(rawFamilies, false)
-	f.corpus2 = corpus(append(append([]*family{}, tokenFamilies...), famJOSEHeader), false)
+	// token phase: the unmutated documents and the top-level shapes are visited twice in a row (so that consecutive case
+	// indices send them to both routers and both halves of the verifiers), the (member x value) sweep once
+	for _, sp := range corpus(append(append([]*family{}, tokenFamilies...), famJOSEHeader), false) {
+		if len(sp.muts) == 0 {
+			f.corpus2 = append(f.corpus2, sp, sp)
+		}
+	}
+	for _, sp := range corpus(append(append([]*family{}, tokenFamilies...), famJOSEHeader), false) {
+		if len(sp.muts) != 0 {
+			f.corpus2 = append(f.corpus2, sp)
+		}
+	}
 
 	var pi *mon.PanicInfo
 	if pi = mon.Catch(func() { f.env = newVenv(); f.worlds[0] = newWorld(0) }); pi != nil {
@@ -897,8 +967,8 @@ func Run(run *ev.Run) {
 
 	thorough := run.Tier == ev.Thorough
 	risky := riskyList(thorough)
-	nRaw := run.N(len(f.corpus1)+8000, len(f.corpus1)+25*8000+25*len(f.corpus1))
-	nTok := run.N(2*len(f.corpus2)+8000, 2*len(f.corpus2)+25*8000+50*len(f.corpus2))
+	nRaw := run.N(len(f.corpus1)+5000, 25*(len(f.corpus1)+5000))
+	nTok := run.N(len(f.corpus2)+4000, 25*(len(f.corpus2)+4000))
 	nEnum := len(genuineKinds) * len(points) * 2
 	nStr := run.N(nEnum+1500, nEnum+25*1500)
 
@@ -948,6 +1018,11 @@ func Run(run *ev.Run) {
 		for i, rs := range risky {
 			f.riskyCase(i, rs)
 		}
+		cost := map[string]string{}
+		for _, d := range []int{50, 100, 200, 400, 800} {
+			cost[fmt.Sprintf("depth %d", d)] = f.actorChainCost(d)
+		}
+		run.Extra("docs.actor_chain_decode_cost_informational", cost)
 		for _, p := range inflightPaths() {
 			_ = os.Remove(p)
 		}
@@ -976,5 +1051,5 @@ func Run(run *ev.Run) {
 	run.Extra("docs.target_calls", f.calls.Load())
 	run.Extra("docs.sizes", map[string]any{"raw_documents": nRaw, "token_documents": nTok, "token_strings": nStr, "risky_documents": len(risky),
 		"raw_targets": len(rawTargets), "verifier_targets": len(vtargets), "http_points": len(points), "routers": 2,
-		"systematic_raw": len(f.corpus1), "systematic_tokens": 2 * len(f.corpus2), "core_values": len(coreValues), "all_values": len(allValues)})
+		"systematic_raw": len(f.corpus1), "systematic_tokens": len(f.corpus2), "core_values": len(coreValues), "all_values": len(allValues)})
 }
